@@ -97,7 +97,9 @@ def gen_recipe(rng, vals):
         # text a CSV writer has to quote: line breaks inside the cell, the delimiter, quotes
         cells = [c for r in rows for c in r["cells"] if c["v"] is not None]
         for c in rng.sample(cells, min(len(cells), 2)):
-            c["v"] = rng.choice(["first line\nsecond line", "a,b;c", 'say "hi"', "multi\n\nline\ntext", "trailing,"])
+            # (no double quote inside the values: whether "" is an escaped quote is guessed by the sniffer and
+            # cannot be stated through import_from_csv)
+            c["v"] = rng.choice(["first line\nsecond line", "a,b;c", "multi\n\nline\ntext", "trailing,", "semi;colon, comma"])
         if cells:
             flags.add("quoted-text")
     return {"cols": cols, "rows": rows}, flags
